@@ -151,6 +151,40 @@ func concCmd(args []string) error {
 			d.Decode(&c)
 			return c
 		}
+		// scenarios marked "respell" name registry fields; the concurrent workers spell each name in their own mix of upper and lower
+		// case (the lookup is case-insensitive, so the result must equal the sequential reference made with the canonical spelling),
+		// a spelling no other goroutine or round uses: a first-use path of the lookup runs while other goroutines are looking up too
+		respell := func(c J, w, r, i int) J {
+			if b, _ := c["respell"].(bool); !b {
+				return c
+			}
+			mask := uint((w+1)*2654435761 + (r+1)*40503 + i*97)
+			ops, _ := c["ops"].([]interface{})
+			for _, o := range ops {
+				op, _ := o.(map[string]interface{})
+				as, _ := op["args"].([]interface{})
+				for k, a := range as {
+					if str, ok := a.(string); ok {
+						bs := []byte(str)
+						n, changed := 0, false
+						for x, ch := range bs {
+							if ch >= 'A' && ch <= 'Z' {
+								if mask>>(uint(n)%24)&1 == 1 {
+									bs[x] = ch + 32
+									changed = true
+								}
+								n++
+							}
+						}
+						if !changed && len(bs) > 0 && bs[0] >= 'A' && bs[0] <= 'Z' {
+							bs[0] += 32
+						}
+						as[k] = string(bs)
+					}
+				}
+			}
+			return c
+		}
 		// sequential reference, forward; then again in reverse order: independent values do not depend on what was processed before
 		seq := make([][]byte, len(corpus))
 		for i := range corpus {
@@ -201,7 +235,7 @@ func concCmd(args []string) error {
 						i := (off + k) % len(corpus)
 						var cur func() []byte
 						if k < len(corpus) {
-							cur = observeScenario(clone(i), rb)
+							cur = observeScenario(respell(clone(i), w, r, i), rb)
 						}
 						if prev != nil {
 							got := prev()
